@@ -337,7 +337,12 @@ class C18(Prop):
           'binding, valid calls split between construction and call, overlapping argument sets with and '
           'without override_args, surplus arguments with and without ignore_extra_args, plus a perturbation '
           'stream (missing required, duplicate positional/keyword, unknown keyword, too many positionals, '
-          'keywords named like the *args/**kwargs parameters). Non-trivial: at least one argument is '
+          'keywords named like the *args/**kwargs parameters); subclassed functors (`class X(pg.Functor)` with '
+          'annotated members and a zero-argument `_call` reading self.<member>); argument values are ints 1-9 '
+          'plus the falsy values 0 / False, None, \'\', [] at every binding stage; Optional[int] annotations '
+          'under auto_typing; a clone of the functor re-bound before the original is called; symbolized EXISTING '
+          'classes whose __init__ computes derived state and may raise, driven through histories construct -> '
+          'rebind* (some make __init__ raise, followed by recovering rebinds). Non-trivial: at least one argument is '
           'supplied and the signature has at least one parameter; distinct: by the whole case.')
   trusted_base = [
       'CPython argument binding (the reference of the differential; pyBind is validated against really '
@@ -348,10 +353,13 @@ class C18(Prop):
       '(hand-written from functor.py, object.py, class_wrapper.py; tied by correspondence only)',
       'outside the model: docstring parsing, auto_typing conversion of annotations (exercised by the '
       'generator, assumed value-preserving for int), return-value specs, functor auto-call scope, '
-      'pg.compound, subclassed functors (`class F(pg.Functor)`), MISSING_VALUE '
+      'pg.compound, MISSING_VALUE '
       'passed as an argument, non-scalar argument values',
   ]
-  assumptions = ['argument values are ints (opaque scalars); no argument is pg.MISSING_VALUE',
+  assumptions = ['argument values are opaque scalars (ints and the falsy values None, \'\', False, []); no argument '
+                 'is pg.MISSING_VALUE; in one case 0 and False do not both occur (they are == for pyglove)',
+                 'for a subclassed functor the member read `self.<m>` inside `_call` is modelled as the bound '
+                 'value overridden by the call-time value (Functor._sym_inferred)',
                  'positional-only parameters are not passed by keyword (known finding F62)',
                  'keywords are not named like the *args parameter (pyglove exposes it as a symbolic field)']
 
